@@ -198,13 +198,16 @@ Record cflow := { cf_file : string; cf_func : string; cf_unit : nat (* 0 = the d
    - Trace leaves its loop only if json.Marshal of a span fails (handler-loop allow-list of round 1);
    - TagsV2 / ValuesV2: `if .. { cRes, err = A() } else { cRes, err = B() }; if err != nil { return }` -- the error check is
      not next to the call, so the analysis cannot tell that the error branch runs only when nothing was lent;
-   - CLokiQuerier.Select returns a SeriesSet carrying the Scan error (no `error` result): the engine ends the query;
+   - (CLokiQuerier.Select was on this list until the end of the third session, with the argument "it returns a SeriesSet
+     carrying the Scan error, the engine ends the query". The argument was wrong: populateSeries goes on to the NEXT selector
+     of the expression before the query ends, so the request asked for a second connection while the first was still held
+     - with a pool of one, a hang for ever, found by the thorough tier (replay: corpus/C12/fixed_defects.jsonl). Repaired in
+     /repo by `defer rows.Close()`; the flow now passes cexit_ok by itself.)
    - the tail goroutine returns at a failed tick after onErr (the session ends: TailSession.v). *)
 Definition exit_reviewed : list (string * string * nat * string) := [
   ("controller/tempoController.go", "(*TempoController).Trace", 0, "res");
   ("controller/tempoController.go", "(*TempoController).TagsV2", 0, "cRes");
   ("controller/tempoController.go", "(*TempoController).ValuesV2", 0, "cRes");
-  ("service/promQueryable.go", "(*CLokiQuerier).Select", 0, "rows");
   ("service/queryRangeService.go", "(*QueryRangeService).Tail", 1, "out")
 ]%string%nat.
 Definition cf_is (f : cflow) (a : string * string * nat * string) : bool :=
